@@ -60,8 +60,50 @@ sys.exit(0)
 '''
 
 
+IN_BODY = '''
+import sys
+import onnx_ir as ir
+from onnxscript import nn
+from onnxscript._internal import builder as B
+
+class Lin(nn.Module):
+    def __init__(self, name=None):
+        super().__init__(name)
+        self.weight = nn.Parameter([2, 2])
+    def forward(self, op, x):
+        return op.MatMul(x, self.weight)
+
+class Net(nn.Module):
+    def __init__(self):
+        super().__init__("net")
+        self.fc1 = Lin()
+        self.fc2 = Lin()
+    def forward(self, op, x):
+        def body(op2, xi):
+            return self.fc2(op2, self.fc1(op2, xi))
+        xi = ir.Value(name="xi", type=ir.TensorType(ir.DataType.FLOAT), shape=ir.Shape([2, 2]))
+        yo = ir.Value(name="yo", type=ir.TensorType(ir.DataType.FLOAT), shape=ir.Shape([2, 2]))
+        op.builder.subgraph(body, [xi], [yo], name="body")
+        return op.Identity(x)
+
+graph = ir.Graph([], [], nodes=[], opset_imports={"": 21}, name="main")
+gb = B.GraphBuilder(graph)
+net = Net()
+x = gb.input("x", ir.DataType.FLOAT, [2, 2])
+net(gb.op, x)
+got = sorted(graph.initializers)
+want = sorted("net." + k for k in net.state_dict())
+if got != want:
+    print(f"modules called inside a control-flow body: initializers {got} but root name + state_dict keys {want}")
+    sys.exit(1)
+sys.exit(0)
+'''
+
+
 def replay(ob):
     n = ob["name"]
+    if "module_called_in_a_subgraph_body" in n:
+        return IN_BODY
     if "subgraph" in n:
         return SUB
     if "with_explicit_names" in n:
